@@ -3,7 +3,7 @@ from fractions import Fraction
 from . import common as cm
 
 ID = 'C10'
-FUNCTIONS = ['flowdyn.modeldisc.fvm1d.* (extrapol1; periodic and sym)', 'flowdyn.modelphy.shallowwater.shallowwater1d.{numflux_rusanov,numflux_hll,timestep,cons2prim,bc_sym}',
+FUNCTIONS = ['flowdyn.modeldisc.fvm1d.* (extrapol1; periodic and sym)', 'flowdyn.modeldisc.fvm1d.calc_flux (flux arrays compared with the HLL form)', 'flowdyn.modelphy.shallowwater.shallowwater1d.{numflux_rusanov,numflux_hll,timestep,cons2prim,bc_sym}',
              'flowdyn.modelphy.euler.euler.{numflux_hlle,numflux_hllc,_Roe_average,timestep,pressure,cons2prim}', 'flowdyn.modelphy.euler.euler1d.bc_sym',
              'flowdyn.integration.explicit.step', 'flowdyn.integration.timemodel.add_res']
 BOUNDS = ('one explicit-Euler step of the real first-order scheme on 3 uniform cells (periodic: every cell sees two arbitrary neighbours; sym: wall-adjacent '
@@ -13,13 +13,15 @@ BOUNDS = ('one explicit-Euler step of the real first-order scheme on 3 uniform c
 OUTSIDE = ('rk2_heun / rk3ssp: convex combinations of Euler steps (C05) under the ASSUMPTION that dt still satisfies CFL <= 1 at the stage states (the '
            'property\'s factor-two margin; there is no maximum principle bounding the stage wave speeds) - stated, not proved; several steps by induction; '
            'round-off; clauses reported INCONCLUSIVE are only searched for violations (solver + simulation-guided models), not proved')
-ASSUMPTIONS = ['stencil locality: a cell update only involves its two neighbours']
+ASSUMPTIONS = ['stencil locality: a cell update only involves its two neighbours',
+               'chain P: the instantiation of the convexity lemmas M1-M6 (proved for all values) at the real terms is an argument; their premises are '
+               'exactly the facts proved on the real terms']
 EXPLANATION = ('Positivity after the real step is asserted for all data. What the solver cannot prove within the time limit is reported inconclusive and '
                'remains a bounded search for violations.')
-LEVEL_TEXT = ('Bounded SMT verification where the non-linear queries close: shallow-water depth (Rusanov directly, HLL through the solver-checked '
-              'lemma chain A-B-C) and HLLE density through the same chain UNDER THE STATED ASSUMPTION that dt also respects the Roe-average wave '
-              'speeds (not implied by the cell CFL condition, DESIGN.md A.8); bounded solver-based search for violations elsewhere (HLLC density and '
-              'every pressure clause are hard NRA: see the evidence for what was proved in this run).')
+LEVEL_TEXT = ('Bounded SMT verification through solver-checked lemma chains: shallow-water depth (Rusanov directly, HLL through chain A-B-C); HLLE '
+              'density AND pressure through the state chain P (flux = HLL form, wave-speed facts, update = convex combination of admissible states, '
+              'convexity lemmas M1-M6), both UNDER THE STATED ASSUMPTION that dt also respects the Roe-average wave speeds (not implied by the cell '
+              'CFL condition, DESIGN.md A.8). HLLC (density and pressure) is a bounded solver-based search for violations only.')
 
 
 def configs(tier):
@@ -32,7 +34,8 @@ def configs(tier):
             out.append({'model': 'shallowwater', 'flux': fl, 'bc': bc, 'timeout_ms': max(to, 60000) if fl == 'rusanov' else to, 'budget_s': max(bud, 290), 'lemma': not q, 'guided_tries': 3000, 'guided_min_size': 5})
         for fl in ('hlle', 'hllc'):
             for g in (['7/5'] if q else ['7/5', '2']):
-                out.append({'model': 'euler1d', 'flux': fl, 'bc': bc, 'gamma': g, 'timeout_ms': to, 'budget_s': max(bud, 295), 'lemma': not q, 'guided_tries': 3000, 'guided_min_size': 5})
+                out.append({'model': 'euler1d', 'flux': fl, 'bc': bc, 'gamma': g, 'timeout_ms': to, 'budget_s': max(bud, 500 if fl == 'hlle' else 295),
+                            'lemma': not q, 'guided_tries': 3000, 'guided_min_size': 5})
     return out
 
 
